@@ -110,6 +110,7 @@ struct Stats {
     sites: BTreeMap<String, SiteStat>,
     max_errors_in_one_input: usize,
     max_impls_in_one_input: usize,
+    shape_probes: BTreeMap<&'static str, u64>,
     samples: Vec<Value>,
 }
 
@@ -171,6 +172,9 @@ impl Stats {
                 e.order_sigs.extend(v.order_sigs);
             }
         }
+        for (k, v) in o.shape_probes {
+            *self.shape_probes.entry(k).or_default() += v;
+        }
         self.max_errors_in_one_input = self.max_errors_in_one_input.max(o.max_errors_in_one_input);
         self.max_impls_in_one_input = self.max_impls_in_one_input.max(o.max_impls_in_one_input);
         if self.samples.len() < 6 {
@@ -178,6 +182,91 @@ impl Stats {
             self.samples.truncate(6);
         }
     }
+}
+
+/// "This rare condition was hit" probes over the workload: input shapes that determine which
+/// emission paths and containers an expansion exercises.  A probe stuck at zero means the
+/// generator must change.
+fn shape_probes(text: &str, o: &plan::Obs, out: &mut BTreeMap<&'static str, u64>) {
+    let t: String = text.chars().filter(|c| !c.is_whitespace()).collect();
+    let count = |pat: &str| t.matches(pat).count();
+    let n_impls = if o.verdict == "OK" { o.text.matches("impl ").count() } else { 0 };
+    let n_errs = if o.verdict == "ERR" { o.text.matches('\u{1f}').count().saturating_sub(1) } else { 0 };
+    let lifetimes_in_attrs = {
+        // distinct lifetimes mentioned inside attributes
+        let mut set: BTreeSet<String> = BTreeSet::new();
+        let b: Vec<char> = t.chars().collect();
+        let mut i = 0;
+        while i + 1 < b.len() {
+            if b[i] == '\'' && b[i + 1].is_alphabetic() {
+                let mut j = i + 1;
+                while j < b.len() && (b[j].is_alphanumeric() || b[j] == '_') {
+                    j += 1;
+                }
+                if j >= b.len() || b[j] != '\'' {
+                    set.insert(b[i..j].iter().collect());
+                }
+                i = j;
+            } else {
+                i += 1;
+            }
+        }
+        set.len()
+    };
+    let mut hit = |name: &'static str, cond: bool| {
+        let e = out.entry(name).or_default();
+        if cond {
+            *e += 1;
+        }
+    };
+    hit("accepted_with_ge2_impls", n_impls >= 2);
+    hit("accepted_with_ge8_impls", n_impls >= 8);
+    hit("accepted_with_ge16_impls", n_impls >= 16);
+    hit("rejected_with_ge2_diagnostics", n_errs >= 2);
+    hit("rejected_with_ge6_diagnostics", n_errs >= 6);
+    hit("rejected_with_ge17_diagnostics", n_errs >= 17);
+    hit("rejected_by_attribute_parse_error", o.verdict == "ERR" && n_errs == 0);
+    hit("panics", o.verdict == "PANIC");
+    hit("enum", t.contains("]enum") || t.starts_with("enum"));
+    hit("tuple_struct", o.verdict != "PARSE" && t.contains("(") && !t.contains("{") && t.contains("struct"));
+    hit("generic_type", t.contains("struct") && (t.contains(">{") || t.contains(">(") || t.contains(">where")) || t.contains("enumEntity<") || t.contains("<T>{"));
+    hit("ge2_lifetimes_mentioned", lifetimes_in_attrs >= 2);
+    hit("ge3_lifetimes_mentioned", lifetimes_in_attrs >= 3);
+    hit("grouped_o2o_syntax", t.contains("#[o2o("));
+    hit("allow_unknown", t.contains("allow_unknown"));
+    hit("type_hint_as_braces_or_parens", t.contains("as{}") || t.contains("as()"));
+    hit("type_hint_as_unit", t.contains("asUnit"));
+    hit("nameless_tuple_counterpart", t.contains("(("));
+    hit("fallible_instruction", t.contains("try_"));
+    hit("into_existing", t.contains("into_existing"));
+    hit("vars_param", t.contains("vars("));
+    hit("update_param", t.contains("|..") || t.contains(",.."));
+    hit("quick_return_param", t.contains("|return") || t.contains(",return"));
+    hit("default_case_param", t.contains("|_") || t.contains(",_"));
+    hit("attribute_params", t.contains("attribute("));
+    hit("trait_level_repeat", t.contains("|repeat(") || t.contains(",repeat(") || t.contains("skip_repeat,") || t.contains("stop_repeat,") || t.contains("|skip_repeat") || t.contains("|stop_repeat"));
+    hit("member_level_repeat", t.contains("#[repeat") || t.contains("(repeat") && t.contains("#[o2o(repeat"));
+    hit("permeating_repeat", t.contains("permeate()"));
+    hit("ghosts_type_level", t.contains("ghosts(") || t.contains("ghosts_owned(") || t.contains("ghosts_ref("));
+    hit("ghosts_with_child_path", t.contains("@") && t.contains("ghosts") && t.contains("child_parents"));
+    hit("ghost_member_level", t.contains("#[ghost") || t.contains("(ghost"));
+    hit("where_clause_attr", t.contains("where_clause("));
+    hit("ge2_where_clause_attrs", count("where_clause(") >= 2);
+    hit("child_attr", t.contains("child("));
+    hit("child_depth_ge2", t.contains("child(") && (t.contains("base.inner") || t.contains("base.base") || t.contains("1.0")));
+    hit("ge3_child_parents_entries", t.contains("child_parents(") && t[t.find("child_parents(").unwrap_or(0)..].split(')').next().map(|x| x.matches(':').count() >= 3).unwrap_or(false));
+    hit("parent_bare", t.contains("#[parent]") || t.contains("parent)"));
+    hit("parent_parameterised", t.contains("parent(") && t.contains("[map(") || t.contains("parent(x,") || t.contains("parent(a,"));
+    hit("parent_nested", t.contains("[parent("));
+    hit("as_type", t.contains("as_type("));
+    hit("literal", t.contains("literal("));
+    hit("pattern", t.contains("pattern("));
+    hit("variant_type_hint", t.contains("type_hint("));
+    hit("ge3_trait_instructions_same_name", ["map(", "from(", "into(", "try_map("].iter().any(|k| count(&format!("#[{}", k)) >= 3));
+    hit("inline_at_or_tilde_expr", t.contains("@.") || t.contains("~."));
+    hit("ge4_counterpart_dedications", count("|") >= 4);
+    hit("ge8_members", text.lines().filter(|l| l.trim_end().ends_with(',')).count() >= 8);
+    hit("union", t.contains("union"));
 }
 
 fn events_hash(ev: &[Event]) -> u64 {
@@ -261,6 +350,9 @@ fn run_world(env: &Env, idx: usize, ws: u64, corpus: &corpus::Corpus, po: &PlanO
 
     let reference = &logs[0];
     for o in &reference.obs {
+        if let Some(t) = w.texts.get(o.input as usize) {
+            shape_probes(&t.1, o, &mut st.shape_probes);
+        }
         *st.verdicts.entry(o.verdict.clone()).or_default() += 1;
         if order_sensitive(o) {
             st.order_sensitive_inputs += 1;
@@ -842,6 +934,7 @@ fn cmd_run(cfg: &Cfg) -> i32 {
             "inputs": total.inputs, "order_sensitive_inputs": total.order_sensitive_inputs,
             "inputs_per_class": total.per_class_inputs, "reference_verdicts": total.verdicts,
             "max_o2o_diagnostics_in_one_input": total.max_errors_in_one_input, "max_impls_in_one_input": total.max_impls_in_one_input,
+            "input_shape_probes": {"note": "how many of the reference observations' inputs have each shape (a probe stuck at 0 is a blind spot of the workload)", "hits": total.shape_probes},
             "corpus": {"items": corpus.items.len(), "files": corpus.files, "from_o2o_tests": corpus.from_tests_dir, "from_unit_tests": corpus.from_unit_tests, "from_readme_and_doc_comments": corpus.from_docs},
             "faults": {
                 "enabled_in_worlds": total.fault_enabled_worlds,
@@ -1054,6 +1147,8 @@ fn main() {
                 let items: Vec<item::Item> = (0..n).map(|_| gen::generate(&mut rng, &c, class)).collect();
                 let texts: Vec<(u32, String)> = items.iter().enumerate().map(|(i, it)| (i as u32, it.render())).collect();
                 let mut h = HostCfg::reference();
+                // (distinct simulated pids: tools/coverage.sh names its profile files by pid)
+                h.pid = 1000 + class as u32;
                 h.events = (0..n as u32).map(|i| Event::Expand { tid: 0, input: i }).collect();
                 let log = run_host(&env, cfg.backend.unwrap_or(Backend::Syn1), cfg.build.unwrap_or(Build::Hooked), &texts, &h).expect("host");
                 let mut verdicts: BTreeMap<String, usize> = BTreeMap::new();
